@@ -24,6 +24,8 @@ use std::sync::{Mutex, OnceLock};
 #[derive(Clone, Debug, Serialize, Deserialize)]
 pub enum Case {
     DualCtor { names: Vec<u8>, ng: usize, nh: usize },
+    /// `n` names v0.. (the last one repeating the first when `dup`), gradient / Hessian lengths given outright
+    DualCtorLarge { n: usize, dup: bool, ng: usize, nh: usize },
     CcyCtor { s: String },
     FxCtor { id: u32 },
     NamedCtor { s: String },
@@ -674,6 +676,48 @@ pub fn check(case: &Case, idx: u64, acc: &mut Acc) {
                 }
             }
         }
+        Case::DualCtorLarge { n, dup, ng, nh } => {
+            let mut vars: Vec<String> = (0..*n).map(|i| format!("v{}", i)).collect();
+            if *dup {
+                vars[*n - 1] = "v0".to_string();
+            }
+            let nd = if *dup { *n - 1 } else { *n };
+            let g: Vec<f64> = (0..*ng).map(|i| 1.0 + i as f64).collect();
+            let h: Vec<f64> = (0..*nh).map(|i| 0.5 * i as f64).collect();
+            let ok1 = *ng == 0 || *ng == nd;
+            let ok2 = ok1 && (*nh == 0 || *nh == nd * nd);
+            acc.nontrivial();
+            let big_other = Dual::new(1.0, (0..*n + 3).rev().map(|i| format!("v{}", i)).collect());
+            acc.evals_add(4);
+            let r = guarded(|| {
+                let mut res: Vec<(String, bool, Result<(), String>, bool)> = vec![];
+                if *nh == 0 {
+                    let a = Dual::try_new(1.5, vars.clone(), g.clone());
+                    res.push(("Dual::try_new".into(), a.is_ok(), a.as_ref().map(|d| dual_shape(d)).unwrap_or(Ok(())), ok1));
+                    let a = Dual::try_new_from(&big_other, 1.5, vars.clone(), g.clone());
+                    res.push(("Dual::try_new_from".into(), a.is_ok(), a.as_ref().map(|d| dual_shape(d).and(if d.vars().len() == big_other.vars().len() { Ok(()) } else { Err("vars not taken from other".into()) })).unwrap_or(Ok(())), ok1));
+                }
+                let a = Dual2::try_new(1.5, vars.clone(), g.clone(), h.clone());
+                res.push(("Dual2::try_new".into(), a.is_ok(), a.as_ref().map(|d| dual2_shape(d)).unwrap_or(Ok(())), ok2));
+                let a = Dual2::try_new_from(&big_other, 1.5, vars.clone(), g.clone(), h.clone());
+                res.push(("Dual2::try_new_from".into(), a.is_ok(), a.as_ref().map(|d| dual2_shape(d)).unwrap_or(Ok(())), ok2));
+                res
+            });
+            match r {
+                Err(msg) => acc.violate(&format!("ctor/Dual/panic/{}", panic_class(&msg)), idx, cj(), json!("Ok or Err"), json!(msg)),
+                Ok(res) => {
+                    for (f, ok, shape, want_ok) in res {
+                        acc.outcome(&(f.clone(), ok, *n));
+                        if let Err(e) = shape {
+                            acc.violate(&format!("ctor/{}/invariant", f), idx, cj(), json!("consistent shapes"), json!(e));
+                        }
+                        if ok != want_ok {
+                            acc.violate(&format!("ctor/{}/{}", f, if ok { "accepted-inconsistent-lengths" } else { "rejected-consistent-lengths" }), idx, cj(), json!(want_ok), json!(ok));
+                        }
+                    }
+                }
+            }
+        }
         Case::CcyCtor { s } => {
             let alphabet = ["a", "B", "1", "é", "€", " "];
             let mut others: Vec<String> = vec![String::new()];
@@ -955,6 +999,16 @@ pub fn cases(tier: Tier) -> Vec<Case> {
             }
         }
     }
+    for n in [8usize, 9, 16, 17, 32, 33, 64, 65, 100] {
+        for dup in [false, true] {
+            let nd = if dup { n - 1 } else { n };
+            for ng in [0, nd - 1, nd, nd + 1, n, 1] {
+                for nh in [0, nd * nd - 1, nd * nd, nd * nd + 1, (nd - 1) * (nd - 1), nd * (nd + 1), n * n, nd] {
+                    out.push(Case::DualCtorLarge { n, dup, ng, nh });
+                }
+            }
+        }
+    }
     let alphabet = ["a", "B", "1", "é", "€", " "];
     let mut strs = vec![String::new()];
     let mut frontier = vec![String::new()];
@@ -1046,7 +1100,7 @@ pub fn cases(tier: Tier) -> Vec<Case> {
 fn evidence_meta(ctx: &Ctx, ncases: usize) -> Meta {
     Meta::exploration(
         "constructors: Dual/Dual2::try_new and try_new_from on every name list of length 0-3 (duplicates allowed) x \
-         gradient length 0-4 x Hessian length 0-10; Ccy::try_new on every string of length 0-4 over {a,B,1,e-acute,euro, \
+         gradient length 0-4 x Hessian length 0-10, and on lists of 8 .. 100 names (with and without a repeated name) x gradient lengths {0, 1, n-1, n, n+1} x Hessian lengths {0, n, n^2-1, n^2, n^2+1, (n-1)^2, n(n+1)}; Ccy::try_new on every string of length 0-4 over {a,B,1,e-acute,euro, \
          space} (+ case-folding oddities), FXPair/FXRate::try_new on every pair with the strings of length <= 3; \
          FXRates::try_new on degenerate quote lists (empty, zero/negative/NaN/inf/subnormal/MAX rates, mixed Dual/Dual2 \
          quotes, duplicate and cyclic pairs, 13 currencies) x bases x orders; NamedCal::try_new on every token string of \
